@@ -19,6 +19,8 @@ import Mathlib.Analysis.Complex.Basic
 Tied to `superop_reps.py` by harness/c08.py (exact correspondence of the shuffle; every representation
 applied to the full operator basis; predicate verdicts against the definitions).
 -/
+set_option linter.unusedSectionVars false
+set_option linter.unusedVariables false
 namespace Qv.C08
 
 theorem div_mul_add {n d b : Nat} (hb : b < n) : (d * n + b) / n = d := by
@@ -104,5 +106,120 @@ theorem kraus_positive (Ks : List (Matrix m n ℂ)) (X : Matrix n n ℂ) (hX : X
   | cons K Ks ih =>
     simp only [krausMap, List.map_cons, List.sum_cons] at ih ⊢
     exact (hX.mul_mul_conjTranspose_same K).add ih
+
+/-! ### the Choi matrix and the supermatrix of a map, with the library's index conventions
+
+Column stacking: `vec(X)` has index `(column, row)`.  The supermatrix acts as `S · vec(X)`; the Choi
+matrix is `Σ_{jl} |j⟩⟨l| ⊗ E(|j⟩⟨l|)`, i.e. index `(input, output)`; `kraus_to_choi` is
+`Σ_K vec(K) vec(K)†`. -/
+section choi
+
+/-- apply a map given by its Choi matrix: `E(X)_{ik} = Σ_{jl} J[(j,i),(l,k)] X_{jl}` -/
+def choiApply (J : Matrix (n × m) (n × m) ℂ) (X : Matrix n n ℂ) : Matrix m m ℂ :=
+  fun i k => ∑ j, ∑ l, J (j, i) (l, k) * X j l
+
+/-- apply a map given by its supermatrix: `vec(E(X)) = S · vec(X)` with column stacking -/
+def superApply (S : Matrix (m × m) (n × n) ℂ) (X : Matrix n n ℂ) : Matrix m m ℂ :=
+  fun i k => ∑ l, ∑ j, S (k, i) (l, j) * X j l
+
+/-- the shuffle `reshape(s0,s1,s0,s1).transpose(3,1,2,0)` on pairs of indices -/
+def shuffleM (S : Matrix (m × m) (n × n) ℂ) : Matrix (n × m) (n × m) ℂ :=
+  fun p q => S (q.2, p.2) (q.1, p.1)
+
+/-- **supermatrix and Choi matrix related by the shuffle describe the same map** -/
+theorem super_apply_eq_choi_apply (S : Matrix (m × m) (n × n) ℂ) (X : Matrix n n ℂ) :
+    choiApply (shuffleM S) X = superApply S X := by
+  funext i k
+  simp only [choiApply, superApply, shuffleM]
+  exact Finset.sum_comm
+
+/-- the pair form of the shuffle is the executable `shuffleEntry` under the row-major encoding
+`(a, b) ↦ a·n + b` of index pairs -/
+theorem shuffleEntry_pairs (N : Nat) (f : Nat → Nat → Nat → Nat → Int) (a b c d : Nat)
+    (ha : a < N) (hb : b < N) (hc : c < N) (hd : d < N) :
+    shuffleEntry N (fun r c => f (r / N) (r % N) (c / N) (c % N)) (a * N + b) (c * N + d) = f d b c a := by
+  unfold shuffleEntry
+  simp only [div_mul_add hb, mod_mul_add hb, div_mul_add hd, mod_mul_add hd, div_mul_add ha, mod_mul_add ha]
+
+/-- `kraus_to_choi`: `J = Σ_K vec(K) vec(K)†`, `vec(K)_{(j,i)} = K_{ij}` -/
+def choiOfKraus (Ks : List (Matrix m n ℂ)) : Matrix (n × m) (n × m) ℂ :=
+  (Ks.map fun K => vecMulVec (fun p : n × m => K p.2 p.1) (star fun p : n × m => K p.2 p.1)).sum
+
+/-- **the Choi matrix built from a Kraus set applies as the Kraus map** -/
+theorem choi_of_kraus_apply (Ks : List (Matrix m n ℂ)) (X : Matrix n n ℂ) :
+    choiApply (choiOfKraus Ks) X = krausMap Ks X := by
+  induction Ks with
+  | nil =>
+    funext i k
+    simp [choiApply, choiOfKraus, krausMap]
+  | cons K Ks ih =>
+    have hadd : choiApply (choiOfKraus (K :: Ks)) X
+        = K * X * Kᴴ + choiApply (choiOfKraus Ks) X := by
+      funext i k
+      simp only [choiApply, choiOfKraus, List.map_cons, List.sum_cons, Matrix.add_apply, add_mul, Finset.sum_add_distrib]
+      congr 1
+      simp only [vecMulVec_apply, Pi.star_apply, Matrix.mul_apply, conjTranspose_apply, Finset.sum_mul]
+      rw [Finset.sum_comm]
+      refine Finset.sum_congr rfl fun l _ => Finset.sum_congr rfl fun j _ => ?_
+      ring
+    rw [hadd, ih]
+    simp [krausMap]
+
+/-- **a Choi matrix built from Kraus operators is positive semidefinite** (complete positivity in the
+Choi picture) -/
+theorem choi_of_kraus_posSemidef (Ks : List (Matrix m n ℂ)) : (choiOfKraus Ks).PosSemidef := by
+  induction Ks with
+  | nil => simpa [choiOfKraus] using PosSemidef.zero
+  | cons K Ks ih =>
+    simp only [choiOfKraus, List.map_cons, List.sum_cons] at ih ⊢
+    exact (posSemidef_vecMulVec_self_star _).add ih
+
+/-- **Hermiticity preservation in the Choi picture**: a Hermitian Choi matrix gives a map that
+commutes with the adjoint -/
+theorem choi_hermitian_preserves (J : Matrix (n × m) (n × m) ℂ) (hJ : J.IsHermitian) (X : Matrix n n ℂ) :
+    (choiApply J X)ᴴ = choiApply J Xᴴ := by
+  funext i k
+  simp only [choiApply, conjTranspose_apply, star_sum, star_mul']
+  rw [Finset.sum_comm]
+  refine Finset.sum_congr rfl fun l _ => Finset.sum_congr rfl fun j _ => ?_
+  have := congrFun (congrFun hJ (l, i)) (j, k)
+  simp only [conjTranspose_apply] at this
+  rw [this]
+
+/-- **trace preservation in the Choi picture**: the map preserves every trace exactly when the partial
+trace of the Choi matrix over the output space is the identity on the input space -/
+theorem choi_trace_preserving_iff (J : Matrix (n × m) (n × m) ℂ) :
+    (∀ X : Matrix n n ℂ, (choiApply J X).trace = X.trace) ↔
+      ∀ j l, ∑ i, J (j, i) (l, i) = if j = l then 1 else 0 := by
+  have expand : ∀ X : Matrix n n ℂ, (choiApply J X).trace = ∑ j, ∑ l, (∑ i, J (j, i) (l, i)) * X j l := by
+    intro X
+    simp only [Matrix.trace, Matrix.diag_apply, choiApply]
+    rw [Finset.sum_comm]
+    refine Finset.sum_congr rfl fun j _ => ?_
+    rw [Finset.sum_comm]
+    refine Finset.sum_congr rfl fun l _ => ?_
+    rw [Finset.sum_mul]
+  constructor
+  · intro h j l
+    have := h (Matrix.single j l (1 : ℂ))
+    rw [expand] at this
+    simp only [Matrix.single_apply, mul_ite, mul_one, mul_zero] at this
+    rw [Finset.sum_eq_single j, Finset.sum_eq_single l] at this
+    · simp only [and_self, if_true] at this
+      rw [this]
+      by_cases hjl : j = l
+      · subst hjl; simp [Matrix.trace_single_eq_same]
+      · simp [Matrix.trace_single_eq_of_ne _ _ _ hjl, hjl]
+    · intro b _ hb; simp [hb.symm]
+    · intro h'; exact absurd (Finset.mem_univ _) h'
+    · intro b _ hb
+      refine Finset.sum_eq_zero fun l' _ => ?_
+      simp [hb.symm]
+    · intro h'; exact absurd (Finset.mem_univ _) h'
+  · intro h X
+    rw [expand]
+    simp only [h, ite_mul, one_mul, zero_mul, Finset.sum_ite_eq, Finset.mem_univ, if_true, Matrix.trace, Matrix.diag_apply]
+
+end choi
 
 end Qv.C08
